@@ -632,6 +632,7 @@ class ArmRun:
         self.events = []
         self.slots = []
         self.decl_fn, self.decl_pos = _decl_primitive(F)
+        self.escaped = set()  # declared locals handed to a callee that was not entered
         self.foreign = 0      # > 0 while inside the body of a helper (events are reported at the call site in the arm)
         self.site = None
 
@@ -830,7 +831,10 @@ class ArmRun:
             return None
         for n in names:
             g = self.F.fn(n, required=False)
-            if g is None or g.hir is None or g.is_closure or not n.startswith("compiler::Compiler::") or n in _NO_INLINE or depth >= 6:
+            # any function of the compiler module is entered (methods of Compiler, of the small structs that carry operands
+            # around, free helpers) - except the compilation of child cards
+            if g is None or g.hir is None or g.is_closure or not n.startswith("compiler::") or n.startswith("compiler::card::") \
+                    or n.startswith("compiler::module::") or n in _NO_INLINE or depth >= 6:
                 continue
             env2 = {}
             for p, v in zip(g.hir.get("params", []), vals):
@@ -851,10 +855,13 @@ class ArmRun:
             return ("array", [("tuple", [a, b]) for a, b in zip(vals[0][1], vals[1][1])])
         if e.get("k") == "call" and any(n.endswith(w) or n.endswith("::" + w) for n in names for w in WRAPPER_CTORS) and len(vals) == 1:
             return vals[0]
-        # an unknown callee: closures handed to it may run, with arguments we know nothing about
+        # an unknown callee: closures handed to it may run, with arguments we know nothing about; declared locals handed to it
+        # (alone or inside a tuple / struct) may be written into the bytecode there
         for v in vals:
             if v is not None and v[0] == "closure":
                 self.call_closure(v, [], depth)
+            else:
+                self.escaped.update(_slots_in(v))
         return None
 
 
@@ -873,6 +880,21 @@ def _join(vals):
         else:
             return None
     return ("alt", flat) if flat else None
+
+
+def _slots_in(v):
+    """all declared locals mentioned anywhere in a value"""
+    if v is None:
+        return set()
+    if v[0] == "slot":
+        return {v[1]}
+    if v[0] == "alt":
+        return set(x[1] for x in v[1])
+    if v[0] in ("tuple", "array"):
+        return set().union(*[_slots_in(x) for x in v[1]]) if v[1] else set()
+    if v[0] == "struct":
+        return set().union(*[_slots_in(x) for x in v[1].values()]) if v[1] else set()
+    return set()
 
 
 def _slots_of(v):
@@ -1010,6 +1032,8 @@ def rule_i(F):
                     res.append(undecided("C01.I", key, f.loc(oln), "the local read by the loop code was not resolved to a declaration"))
                 elif all(n in stored for n in _slots_of(v)):
                     res.append(ok("C01.I", key, f.loc(oln), "stored (write_local_var / loop instruction operand) before the loop code reads it"))
+                elif any(n in run.escaped for n in _slots_of(v) if n not in stored):
+                    res.append(undecided("C01.I", key, f.loc(oln), "the local is handed to a function that was not read; it may be written as an operand there"))
                 else:
                     res.append(bad("C01.I", key, f.loc(oln),
                                    "the %s loop reads its local `%s` with read_local_var but never stores it into its slot first (no "
